@@ -130,6 +130,14 @@ func checkC13(p *Program, r *Report) {
 	// ---- stored prefixes are decoded the same way in every mode that stores them (typestate rule of C10,
 	// incl. "the bit length of a stored prefix reads its marker byte")
 	checkSessionTypestate(p, r, "C13.session-valid")
+	// "every mode gives identical answers for retained keys": only the modes without stored inner
+	// prefixes narrow the step, so a silent truncation there makes the modes disagree
+	if entry := p.Trie.Func("NewSlimTrie"); entry != nil {
+		if F := findBuilder(p, entry); F != nil {
+			r.Explanation += " (narrow) every narrowing conversion on the construction path is bounded (rule shared with C08): only the modes without stored inner prefixes narrow the step, so a silent truncation would make them lose retained keys that the other modes find."
+			checkNarrowAs(p, r, "C13.narrow", entry, F)
+		}
+	}
 }
 
 // checkOptNormalisation (C13.complete): on the guarded summary of the option
